@@ -11,6 +11,8 @@ vars == <<hi, l, st, ok, res>>
 Has(r, f) == f \in DOMAIN r
 V(b) == [k |-> "v", v |-> b]
 N == [k |-> "n", v |-> <<>>]
+\* derived Ord of a byte-array wrapper: lexicographic from the first byte
+LexLt(x, y) == \E i \in 1..Len(x) : x[i] < y[i] /\ \A j \in 1..(i - 1) : x[j] = y[j]
 P == [k |-> "p", v |-> <<>>]
 Bool(b) == V(<<IF b THEN 1 ELSE 0>>)
 Sc(b) == ScalarOfBytes(b)
@@ -36,6 +38,16 @@ ApplyFn(e) ==
     [] e.op = "ge_double_scalarmult" ->
          LET d == Decode(e.A) IN IF d[1] THEN V(<<1>> \o Encode(PAdd(SMul(Sc(e.a), d[2]), SMulB(Sc(e.b))))) ELSE V(<<0>>)
     [] e.op = "ge_decode" -> LET d == Decode(e.bytes) IN IF d[1] THEN LET enc == Encode(d[2]) IN V(<<1>> \o enc \o enc) ELSE V(<<0>>)
+    [] e.op = "ge_ops2" ->
+         LET p == SMulB(Sc(e.p))   ep == Encode(p)   id == Encode(Ident)
+         IN V(Encode(PNeg(p)) \o ep \o ep \o ep \o id \o id \o ep \o ep)
+    [] e.op = "scalar_consts" ->
+         LET one == <<1>> \o Zeros(31)   z == Zeros(32)
+         IN V(z \o one \o <<IF e.bytes = z THEN 1 ELSE 0, IF e.bytes = one THEN 1 ELSE 0, 1, IF e.bytes = one THEN 0 ELSE 1>>)
+    [] e.op = "fe_consts" -> V(ToBytes(FZero) \o ToBytes(FOne) \o ToBytes(SQRTM1) \o ToBytes(DD) \o ToBytes(D2))
+    [] e.op = "x25519_conv" ->
+         V(e.a \o e.a \o e.a \o e.b \o e.b \o e.b \o <<IF e.a = e.b THEN 1 ELSE 0, IF LexLt(e.a, e.b) THEN 1 ELSE 0, IF LexLt(e.b, e.a) THEN 1 ELSE 0>>)
+    [] e.op = "ed_consts" -> V(<<32, 32, 32, 64, 64, 64>>)
     [] e.op = "ge_ops" ->
          LET p == SMulB(Sc(e.p))   q == SMulB(Sc(e.q))
              d == Encode(PDouble(p))   s == Encode(PAdd(p, q))   m == Encode(PAdd(p, PNeg(q)))
@@ -59,6 +71,7 @@ ApplyFe(s, e) ==
        [] e.op = "is_negative" -> [st |-> s, out |-> Bool(FIsNeg(a))]
        [] e.op = "is_nonzero" -> [st |-> s, out |-> Bool(a # FZero)]
        [] e.op = "eq" -> [st |-> s, out |-> Bool(a = b)]
+       [] e.op = "ne" -> [st |-> s, out |-> V(<<IF a = b THEN 0 ELSE 1, IF a = b THEN 0 ELSE 1>>)]
        [] e.op = "to_bytes" -> [st |-> s, out |-> V(ToBytes(a))]
 Apply(h, s, e) == IF h.cls = "feprog" THEN ApplyFe(s, e) ELSE [st |-> s, out |-> ApplyFn(e)]
 Fresh(h) == <<FZero, FOne, FZero, FOne>>
